@@ -3,16 +3,19 @@
 evaluation .work/seedres/<id>.json into /verif/seeded/<id>/ (patch.diff, demo/, notes.md, meta.json)."""
 import sys, os, json, shutil, re
 ROOT = os.path.dirname(os.path.dirname(os.path.abspath(__file__)))
+SEEDDIR = os.environ.get('SEEDDIR', '/tmp/seedout')
+SEEDRES = os.environ.get('SEEDRES', 'seedres')
+PREFIX = os.environ.get('SEEDPREFIX', '')
 for sid in sys.argv[1:]:
-    src = '/tmp/seedout/' + sid
-    rp = os.path.join(ROOT, '.work', 'seedres', sid + '.json')
+    src = os.path.join(SEEDDIR, sid)
+    rp = os.path.join(ROOT, '.work', SEEDRES, sid + '.json')
     if not (os.path.isdir(src) and os.path.exists(rp)):
         print(sid, 'missing'); continue
     r = json.load(open(rp))
     confirmed = r.get('patch_applies') and r.get('suite_passes_with_change') and r.get('demo_passes_without_change') and r.get('demo_fails_with_change')
     if not confirmed:
         print(sid, 'NOT confirmed, skipped:', {k: r.get(k) for k in ('patch_applies', 'suite_passes_with_change', 'demo_passes_without_change', 'demo_fails_with_change')}); continue
-    dst = os.path.join(ROOT, 'seeded', sid)
+    dst = os.path.join(ROOT, 'seeded', PREFIX + sid)
     shutil.rmtree(dst, ignore_errors=True)
     os.makedirs(dst)
     shutil.copyfile(os.path.join(src, 'patch.diff'), os.path.join(dst, 'patch.diff'))
